@@ -182,7 +182,14 @@ class Result:
         for r in other.inconclusive:
             self.inconc(r)
         for k, v in other.notes.items():
-            self.notes.setdefault(k, v)
+            if k == "anchors_missing" and k in self.notes:
+                # an anchored mechanism counts as reached when any shard executed it
+                self.notes[k] = [a for a in self.notes[k] if a in v]
+                self.notes["anchors_reached"] = self.notes.get("anchors_total", 0) - len(self.notes[k])
+            elif k == "max_line_events_in_one_call" and k in self.notes:
+                self.notes[k] = max(self.notes[k], v)
+            elif k != "anchors_reached" or k not in self.notes:
+                self.notes.setdefault(k, v)
 
 
 def load_known_findings():
@@ -229,6 +236,9 @@ def finish(pid, tier, seed, level, result, rule, wall_s, assumptions, extra_cove
         first = result.violations[key][0]["what"] if result.violations[key] else ""
         lines.append(f"VIOLATION property={pid} replay={path} key={key} hits={result.viol_counts.get(key)} :: {first[:300]}")
 
+    if result.notes.get("anchors_missing"):
+        # the functions the property is anchored in were never executed by any shard: the monitors said nothing about them
+        result.inconc("anchored mechanisms never executed: " + ", ".join(result.notes["anchors_missing"]))
     if result.evaluations < min_evaluations:
         result.inconc(f"deciding oracle evaluated {result.evaluations} < {min_evaluations} times")
 
